@@ -405,3 +405,101 @@ func threadCPUNanos() int64 {
 	}
 	return ts.Nano()
 }
+
+// ---- build cases with a prelude and decoy calls ---------------------------
+
+// preOp is one unrelated library call made before the case proper: state
+// that leaks between packets or between calls (package-level scratch, pools,
+// lazily filled tables, shared default slices) then shows in the case.
+type preOp struct {
+	Frame Hex    `json:"frame"`
+	Entry string `json:"entry"`
+}
+
+// buildCase is the replayable description of a packet built through the API.
+type buildCase struct {
+	ModelGob string     `json:"model_gob"`
+	Model    string     `json:"model"`
+	Plan     []api.Step `json:"plan"`
+	DecoyGob string     `json:"decoy_gob,omitempty"`
+	Prelude  []preOp    `json:"prelude,omitempty"`
+}
+
+func runPrelude(ops []preOp) {
+	for _, o := range ops {
+		_, _, _ = decodeVia(o.Entry, o.Frame)
+	}
+}
+
+// build runs the prelude and builds the packet.
+func (c buildCase) build() (p mq.ControlPacket, m model.Packet, err error) {
+	m, err = unpackModel(c.ModelGob)
+	if err != nil {
+		return nil, m, err
+	}
+	var decoy *model.Packet
+	if c.DecoyGob != "" {
+		d, err := unpackModel(c.DecoyGob)
+		if err != nil {
+			return nil, m, err
+		}
+		decoy = &d
+	}
+	runPrelude(c.Prelude)
+	return api.BuildDecoy(&m, decoy, c.Plan), m, nil
+}
+
+// drawPrelude draws 0..3 unrelated decodes (mostly none).
+func drawPrelude(t *rapid.T) []preOp {
+	if rapid.IntRange(0, 9).Draw(t, "prelude") < 7 {
+		return nil
+	}
+	n := rapid.IntRange(1, 3).Draw(t, "prelude.n")
+	var ops []preOp
+	for i := 0; i < n; i++ {
+		f, _ := genHostileFrame(t)
+		switch rapid.IntRange(0, 5).Draw(t, "prelude.valid") {
+		case 0, 1:
+			_, f, _, _ = genValidFrame(t, true)
+		case 2:
+			// a CONNECT of another protocol generation, typically decoded
+			// into a constructor value (whose fields start as shared defaults)
+			m := model.New(model.CONNECT)
+			m.ProtocolName = rapid.SampledFrom([]string{"mqtt", "MQIs", "MQTX", "M", "Mq", "MQIsdp"}).Draw(t, "prelude.proto")
+			m.ProtocolVersion = rapid.SampledFrom([]uint8{3, 4, 5}).Draw(t, "prelude.protover")
+			m.ClientID = "other"
+			f = ref.Canonical(&m)
+		}
+		if len(f) > 4096 {
+			f = f[:4096]
+		}
+		entry := "ReadPacket"
+		if len(f) > 0 {
+			switch rapid.IntRange(0, 3).Draw(t, "prelude.entry") {
+			case 0:
+				entry = fmt.Sprintf("UnmarshalNew:%d", f[0]>>4)
+			case 1:
+				entry = fmt.Sprintf("Unmarshal:%d", f[0]>>4)
+			}
+		}
+		ops = append(ops, preOp{Frame: f, Entry: entry})
+	}
+	return ops
+}
+
+// drawBuildCase draws everything about how a model is built: call order,
+// probes, decoy calls (the same setter called first with another value),
+// prelude.
+func drawBuildCase(t *rapid.T, m *model.Packet, typ uint8) buildCase {
+	c := buildCase{ModelGob: packModel(*m), Model: m.String()}
+	c.Plan = drawPlan(t, m)
+	if rapid.IntRange(0, 3).Draw(t, "decoys") == 0 && len(c.Plan) > 0 {
+		d := genC01(t, typ)
+		c.DecoyGob = packModel(d)
+		c.Plan = api.WithDecoys(m, c.Plan, func(i int) (bool, int) {
+			return rapid.IntRange(0, 2).Draw(t, "decoy.use") == 0, rapid.IntRange(0, 4).Draw(t, "decoy.before")
+		})
+	}
+	c.Prelude = drawPrelude(t)
+	return c
+}
